@@ -12,6 +12,14 @@ LEVEL_TEXT = ("Lean theorems (Props/C04.lean): geometry of save for both flavour
 
 def one_case(ctx, res, stream, fl, verbose, items):
     sc = K.Scenario(ctx, fl)
+    if ctx.rng.random() < 0.25:
+        # an older, longer file already sits where the image is created (seed C04d: a destination opened without truncation keeps its tail):
+        # what is created must still be exactly 4 x 80 x 16 sectors
+        import os
+        size = (1310720 if fl == "fd" else 2621440) + ctx.rng.choice([1, 256, 512, 4096, 700000])
+        with open(os.path.join(sc.dir, sc.archive), "wb") as f:
+            f.write(bytes([ctx.rng.choice([0x00, 0xE5, 0xAA])]) * size)
+        res.count("created_over_a_longer_file")
     raw = E.run_step(ctx, res, stream, sc, "create", verbose, items, None,
                      {"geometry", "fsck", "stored_match", "usage_sum"}, {"flavour": fl})
     if raw is None:
